@@ -15,19 +15,17 @@ structure Signable (w : World) (tx : Tx) : Prop where
 /-- What the conservation proof still uses of the sender — `Signable` cut down to the transaction shape each
 clause is needed for. Since `executeTx` uses the sender's record as the receiver's whenever the resolved
 recipient is the sender's own account (fix 343afa85), a transaction of a contract account or of aergo.name to
-itself needs no assumption any more; what is left:
-* `notName`: a governance tx *to aergo.name* is not sent *by* aergo.name;
+itself needs no assumption any more (`notName` is gone); what is left:
 * `noCode`: a REDEPLOY whose recipient is its own sender (the one case that still works on two records of one
   account) is not sent by a contract;
 * `fresh`: the address of a contract the tx deploys is not the sender's own.
-All three are facts about a *signed* transaction (C04). -/
+Both are facts about a *signed* transaction (C04). -/
 structure SenderOK (w : World) (tx : Tx) : Prop where
-  notName : tx.type = .governance → tx.recipient = some aName → tx.sender ≠ aName
   noCode : tx.type = .redeploy → tx.recipient = some tx.sender → (w.acct tx.sender).code = false
   fresh : tx.recipient = none → tx.newAddr ≠ tx.sender
 
 theorem Signable.senderOK {w : World} {tx : Tx} (h : Signable w tx) : SenderOK w tx :=
-  ⟨fun _ _ => h.notName, fun _ _ => h.noCode, h.fresh⟩
+  ⟨fun _ _ => h.noCode, h.fresh⟩
 
 theorem resetAccount_some {cp : Copy} {fee : Nat} {n : Option Nat} {a : Acct}
     (h : resetAccount cp (some fee) n = some a) : fee ≤ cp.old.bal ∧ a.bal = cp.old.bal - fee := by
@@ -320,6 +318,21 @@ theorem runtimeBranch_own_leak {w0 w : World} {bp : Nat} {tx : Tx} {obj : Copy} 
     rw [ha] at hl
     simp at hl
 
+/-- what `executeOwn` guarantees about its outputs -/
+theorem executeOwn_spec {c : Ctx} {w : World} {tx : Tx} {acc : Copy} {isFD : Bool} {o : ExecOut}
+    (hoo : executeOwn c w tx acc isFD = o) :
+    o.rcv.id = acc.id ∧ o.rcv.old = acc.old ∧ o.w.acct acc.id = w.acct acc.id ∧
+    (o.err = some .runtime → o.leak = false → o.w = w) := by
+  unfold executeOwn at hoo
+  simp only [] at hoo
+  split at hoo
+  · subst hoo; simp
+  · subst hoo; simp
+  · split at hoo
+    · subst hoo; simp
+    · obtain ⟨ok, _⟩ := vmCall_spec hoo
+      exact ⟨ok.rid, ok.rold, ok.arid, ok.runtime⟩
+
 /-- `finishOwn` conserves Σ + BpReward, given what validation guarantees about the base fee -/
 theorem finishOwn_total {c : Ctx} {w : World} {bp : Nat} {tx : Tx} {acc : Copy} {isFD : Bool} {st : Status}
     (hc : acc.cur = w.acct acc.id) (ho : acc.old = w.acct acc.id) (hcov : txBaseFee c tx.payloadLen ≤ acc.cur.bal)
@@ -475,11 +488,19 @@ theorem executeTx_total' {c : Ctx} {w : World} {bp : Nat} {tx : Tx} {res : Resul
               · -- aergo.name
                 rename_i hrc
                 have hrid : rcv.id = aName := (m3 _ hrc).1
-                have hne : (w.getCopy tx.sender).id ≠ rcv.id := by
-                  rw [getCopy_id, hrid]; exact hsig.notName hty hrc
-                have := execName_total (bp := bp) (st := st) rfl herr hsc m1 hne
-                rw [(successBranch_w _ _ _ _ _ _ _).2.1]
-                omega
+                by_cases hne : (w.getCopy tx.sender).id = rcv.id
+                · -- aergo.name itself is the sender: `receiver = sender`, one record
+                  have hrv : rcv = w.getCopy tx.sender := by
+                    have hs1 : tx.sender = 1 := by rw [getCopy_id] at hne; rw [hne, hrid]; rfl
+                    simp [mkReceiver, hrc, hty] at hrcv
+                    rw [← hrcv.1, hs1]
+                  rw [hrv] at herr ⊢
+                  have := execName_own_total (bp := bp) (st := st) rfl herr hsc
+                  rw [(successBranch_w _ _ _ _ _ _ _).2.1]
+                  omega
+                · have := execName_total (bp := bp) (st := st) rfl herr hsc m1 hne
+                  rw [(successBranch_w _ _ _ _ _ _ _).2.1]
+                  omega
               · simp at herr
           · -- fee delegation
             rename_i hty
